@@ -1,13 +1,13 @@
 """PEXEC -- the Pandas executor, transcribed step by step, refines the reference semantics (pseudo property: deepens C01 C08 C15 C16).
 proof:  Props/PEXEC.v.  Model/PandasExec.v transcribes every `_*_step` of data_algebra/pandas_base.py (scratch columns, sub-frames,
-        sort / group / transform / sort back, merge + coalescing loop, empty-input special cases) over hand models of the pandas
+        sort / group / transform / sort back, null-key marker column + merge + coalescing loop, empty-input special cases) over hand models of the pandas
         primitives it calls (Model/PdPrim.v).  Theorems: the transcription refines sem_gen fl_pandas (up to column order and row
         order, exactly what holds is stated there), no scratch column survives, the chosen scratch names never capture a user
         column, shared non-key join columns are coalesced left-first.
 tie:    (a) whole pipelines: pexec inside Coq vs the REAL ops.eval on Pandas -- same columns in the same order, same rows in the same
             order; declared_cols vs ops.column_names;
         (b) primitives: each modelled pandas call (df[c]=, del, df[cs], mask, rename, sort_values, concat, merge, groupby.agg /
-            transform / cumcount / size, isnull, .loc[mask, c] = ...) run on random small frames vs Model/PdPrim.v inside Coq;
+            transform / cumcount / size, isnull, isnull().any(axis=1), .loc[mask, c] = ...) run on random small frames vs Model/PdPrim.v inside Coq;
         (c) syntactic: the scratch-name base strings and the pandas calls of every `_*_step`, extracted from pandas_base.py with
             `ast`, vs the transcription's tables (a new scratch column or a new pandas call in a step = correspondence break);
         (d) quirks read from the source (table_is_keyed_by_columns groups with dropna=True) are passed to the model.
@@ -230,6 +230,13 @@ def target_case(rng, kind):
         rng.shuffle(lspec); rng.shuffle(rspec)
         d1 = mk_table(rng, "d1", lspec, rng.choice([0, 1, 2, 3, 4, 5]), rng.choice([0.0, 0.2, 0.4]), uid="lid")
         d2 = mk_table(rng, "d2", rspec, rng.choice([0, 1, 2, 3, 4, 5]), rng.choice([0.0, 0.2, 0.4]), uid="rid")
+        if nk and rng.random() < 0.35:                # a null key on BOTH sides: the null-key marker column path of _natural_join_step
+            for d, ks in ((d1, lk), (d2, rk)):
+                if not d["rows"]:
+                    d["rows"].append([pipes.gen_value(rng, ty, 0.0) for _, ty in d["spec"]])
+                names = [c for c, _ in d["spec"]]
+                for r in rng.sample(d["rows"], rng.choice([1, min(2, len(d["rows"]))])):
+                    r[names.index(rng.choice(ks))] = None
         jt = rng.choice(["INNER", "LEFT", "RIGHT", "FULL"] + (["CROSS"] if nk == 0 else []))
         s = {"op": "natural_join", "src": T("d1"), "b": T("d2"), "on": [[a, b] for a, b in zip(lk, rk)], "jointype": jt}
         return s, [d1, d2], {"kind": "join", "lk": lk, "rk": rk, "shared": [c for c, _ in shared], "jointype": jt}
@@ -441,7 +448,8 @@ def keys_match(a, b, lk, rk):
 
 def o_join(case, res, info):
     """every result row, identified through lid / rid, carries COALESCE(left, right) in each shared non-key column, the left row's
-    own cells elsewhere, and the pair satisfies the join condition (null keys match on Pandas: listed under C16)"""
+    own cells elsewhere, and the pair satisfies the join condition (equal keys; a null key matches nothing: /repo af27aca adds a
+    null-key marker column to the merge keys so that pandas' "NaN matches NaN" cannot pair two null keys)"""
     L, R = case.frames["d1"], case.frames["d2"]
     lrow = {ncell(r["lid"]): r for _, r in L.iterrows()}
     rrow = {ncell(r["rid"]): r for _, r in R.iterrows()}
@@ -938,7 +946,7 @@ def run(chk):
     chk.cov["trusted_base"] = [
         "Coq 8.16.1 kernel + vm_compute",
         "hand models of the pandas primitives, Model/PdPrim.v (column assignment / deletion / selection, mask, rename, sort_values as ANY sorted "
-        "permutation, concat, merge incl. its row and column order and NaN-keys-match, groupby agg / transform / cumcount / size with dropna, isnull, "
+        "permutation, concat, merge incl. its row and column order and NaN-keys-match, groupby agg / transform / cumcount / size with dropna, isnull, isnull().any(axis=1), "
         ".loc assignment): modelled, not verified; each is run against real pandas on random frames on every run",
         "scalar expressions (act_on / impl_map) are NOT transcribed: Sem.eval_expr fl_pandas per row (tied by C01/C05's correspondences); "
         "window and aggregate FUNCTIONS are Sem.win_fn / agg_fn fl_pandas (tied by C27 and by the primitive cases here)",
@@ -949,7 +957,7 @@ def run(chk):
                        "single-key sorts with tied non-null keys are compared as multisets (numpy's default argsort is not stable)",
                        "set iteration order is not modelled: a project with >= 2 group columns is compared by column NAME"]
     chk.cov["rule"] = ("random pipelines (harness/pipes.py grammar, depth 1..4, 2 tables, nulls, duplicates, empty tables) + targeted shapes (joins with same / "
-                       "different key names, multi-column and empty `on`, CROSS, shared non-key columns, empty sides; projects with null-heavy keys, no ops, constants, "
+                       "different key names, multi-column and empty `on`, CROSS, shared non-key columns, null keys on both sides (marker-column path), a left key that is a right non-key column, empty sides; projects with null-heavy keys, no ops, constants, "
                        "empty input; windowed extends over 0..2 partition columns with total orders and 13 functions incl. constant arguments and self-overwrite; "
                        "extends on narrow frames (both column-copy paths); concat with an empty side / id column; order_rows with limits) + per-primitive cases; "
                        "non-trivial = result has rows or the executor raised; distinct by script + tables")
@@ -1000,6 +1008,12 @@ def run(chk):
         for o in set(pipes.script_ops(c.script)):
             chk.dist("op_" + o)
         chk.dist("raised" if res is None else "rows_%d" % min(len(res), 9))
+        if kind == "join" and info.get("lk"):
+            nullkey = lambda name, ks: any(any(r[[cn for cn, _ in t["spec"]].index(k)] is None for k in ks) for t in c.tabs if t["name"] == name for r in t["rows"])
+            if nullkey("d1", info["lk"]) and nullkey("d2", info["rk"]):
+                chk.dist("join_null_key_marker_path")
+            if info.get("overlap"):
+                chk.dist("join_left_key_is_right_non_key")
         if len(chk.cov["samples"]) < 4 and kind != "random":
             chk.sample({"case": c.json(), "info": info})
         # oracles on the real code
